@@ -265,6 +265,8 @@ owned!(ETagged0Str, "Tagged<0,String>", Tagged<0, String>);
 owned!(ETagged55799, "Tagged<55799,(bool,char)>", Tagged<55799, (bool, char)>);
 owned!(ETagged24Bytes, "Tagged<24,ByteVec>", Tagged<24, ByteVec>);
 owned!(ETaggedBigU8, "Tagged<2^32,u8>", Tagged<4294967296, u8>);
+owned!(ETaggedOptU8, "Tagged<7,Option<u8>>", Tagged<7, Option<u8>>);
+owned!(ETaggedOptStr, "Tagged<256,Option<String>>", Tagged<256, Option<String>>);
 owned!(ETaggedMaxVec, "Tagged<u64::MAX,Vec<u8>>", Tagged<18446744073709551615, Vec<u8>>, INDEF_OK = true);
 
 // ---- borrowing types -------------------------------------------------------------------
@@ -352,7 +354,7 @@ impl Entry for EOptRefStr {
 }
 
 /// `Token` (like `Tag`) encodes a single head, not always a complete item.
-pub fn head_only<E: Entry>() -> bool { E::NAME == "Tag" || E::NAME == "Token" }
+pub fn head_only<E: Entry>() -> bool { E::NAME == "Tag" || E::NAME == "Token" || E::NAME == "Option<Token>" }
 
 pub fn token_int(t: &Token<'_>) -> Option<i128> {
     Some(match t {
@@ -407,6 +409,24 @@ impl Entry for ETok {
     }
 }
 
+/// `Option<Token>`: every token except `Null` (whose encoding is the one `None` uses - lossy by construction).
+pub struct EOptTok;
+impl Entry for EOptTok {
+    const NAME: &'static str = "Option<Token>";
+    type Seed = Option<<ETok as Entry>::Seed>;
+    type Val<'a> = Option<Token<'a>>;
+    fn seed(g: &mut Gen) -> Self::Seed {
+        if g.chance(40) { return None }
+        let mut s = ETok::seed(g);
+        if matches!(s.2, Token::Null) { s.2 = Token::Undefined }
+        Some(s)
+    }
+    fn view<'a>(s: &'a Self::Seed) -> Option<Token<'a>> { s.as_ref().map(ETok::view) }
+    fn same<'a, 'b>(a: &Option<Token<'a>>, b: &Option<Token<'b>>) -> bool { match (a, b) { (None, None) => true, (Some(x), Some(y)) => ETok::same(x, y), _ => false } }
+    fn model<'a>(v: &Option<Token<'a>>) -> Option<Item> { match v { None => Some(Item::Null), Some(t) => ETok::model(t) } }
+    fn borrows_from<'a>(v: &Option<Token<'a>>, input: &'a [u8]) -> bool { v.as_ref().map(|t| ETok::borrows_from(t, input)).unwrap_or(true) }
+}
+
 pub struct EVecRefStr;
 impl Entry for EVecRefStr {
     const NAME: &'static str = "Vec<&str>";
@@ -442,7 +462,7 @@ macro_rules! for_each_entry {
             $mac!(EBTreeMapU8U8), $mac!(EBTreeMapStrVec), $mac!(EHashMapU32Str), $mac!(EHashMapStrOptBool),
             $mac!(ERange), $mac!(ERangeFrom), $mac!(ERangeTo), $mac!(ERangeToIncl), $mac!(ERangeIncl), $mac!(EBound),
             $mac!(EDuration), $mac!(ESystemTime), $mac!(EIpAddr), $mac!(EIpv4), $mac!(EIpv6), $mac!(ESockAddr), $mac!(ESockAddrV4), $mac!(ESockAddrV6),
-            $mac!(EInt), $mac!(ETag), $mac!(ETok), $mac!(ETagged0Str), $mac!(ETagged55799), $mac!(ETagged24Bytes), $mac!(ETaggedBigU8), $mac!(ETaggedMaxVec),
+            $mac!(EInt), $mac!(ETag), $mac!(ETok), $mac!(EOptTok), $mac!(ETaggedOptU8), $mac!(ETaggedOptStr), $mac!(ETagged0Str), $mac!(ETagged55799), $mac!(ETagged24Bytes), $mac!(ETaggedBigU8), $mac!(ETaggedMaxVec),
         ]
     }}
 }
